@@ -1076,6 +1076,11 @@ func (w *world) byzValue(byz []*device) (*spacesyncproto.StoreKeyValue, string) 
 		return w.craft(dev, dev.acc, key, ts, acl, []byte("byz")), fmt.Sprintf("%s cites #%d", dev.name, w.recIndex(acl))
 	case 1: // relabelled: filed under another slot
 		kv := w.craft(dev, dev.acc, key, ts, acl, []byte("byz"))
+		if s.Flip("relabel-own-longer-key", 0.4) {
+			// the slot of a longer key of the same device, of which the signed key is a prefix
+			kv.KeyPeerId = key + []string{"x", "-", "2"}[s.Choose("key-suffix", 3)] + "-" + dev.keys.PeerKey.GetPublic().PeerId()
+			return kv, fmt.Sprintf("%s relabelled to the slot of a longer key of its own", dev.name)
+		}
 		other := w.nodes[s.Choose("victim", len(w.nodes))].dev
 		kv.KeyPeerId = key + "-" + other.keys.PeerKey.GetPublic().PeerId()
 		return kv, fmt.Sprintf("%s relabelled to the slot of %s", dev.name, other.name)
